@@ -93,6 +93,10 @@ func (w *runWorld) ctor(key string) (keyed.Routine, int) {
 		inc = &incarnation{id: w.nInc, key: key}
 		w.incOf[key] = inc
 	}
+	if c.S.PlanP(200) {
+		// a constructor that takes a few steps (it runs with the container's lock held)
+		core.YieldN("keyedx.ctor", 2)
+	}
 	if c.S.PlanP(70) {
 		// a constructor may return no routine for a key: nothing runs for it, but
 		// whatever ran before it for the same key must still be waited for
